@@ -245,6 +245,9 @@ func (v *FV) execLock(fr *Frame, st *State, cc *ssa.CallCommon, kind string, pos
 		env.pkg = p
 	}
 	hk := ld.Owner + "." + ld.Field + "@" + owner
+	if kind == "lock" || kind == "rlock" {
+		v.countSection(fr, st, ld, owner)
+	}
 	switch kind {
 	case "lock":
 		st.held[hk] = "w"
@@ -297,6 +300,7 @@ type touched struct {
 	arr  string
 	ref  Term
 	all  bool // whole second-level array (slice contents / map)
+	cond Term // "" or guard of a conditional location ("loc when cond")
 }
 
 func (v *FV) locWrite(env *ExprEnv, st *State, text string, _ string) (res []touched, err error) {
@@ -310,6 +314,31 @@ func (v *FV) locWrite(env *ExprEnv, st *State, text string, _ string) (res []tou
 		}
 	}()
 	text = strings.TrimSpace(text)
+	if i := strings.Index(text, " when "); i > 0 {
+		condT, cerr := env.EvalBool(strings.TrimSpace(text[i+6:]))
+		if cerr != nil {
+			return nil, cerr
+		}
+		before := map[string]Term{}
+		for k, x := range st.snap.over {
+			before[k] = x
+		}
+		beforeSnap := st.snap.clone()
+		ts, err := v.locWrite(env, st, text[:i], "")
+		if err != nil {
+			return nil, err
+		}
+		for k := range ts {
+			a := ts[k].arr
+			now := v.heapGet(st.snap, a)
+			was := v.heapGet(beforeSnap, a)
+			if now != was {
+				st.snap.over[a] = v.define(a, v.arrSort(a), fmt.Sprintf("(ite %s %s %s)", condT, now, was))
+			}
+			ts[k].cond = condT
+		}
+		return ts, nil
+	}
 	if strings.HasPrefix(text, "any(") {
 		// any(T).f.g : field f.g of every object of type T (whole heap array)
 		depth, end := 0, -1
@@ -359,7 +388,7 @@ func (v *FV) locWrite(env *ExprEnv, st *State, text string, _ string) (res []tou
 	if perr != nil {
 		return nil, perr
 	}
-	env.snap = st.snap
+	// location expressions are evaluated in env.snap (the pre-state); writes go to st.snap
 	if contents {
 		x := env.eval(e)
 		switch {
@@ -619,6 +648,13 @@ func (v *FV) doCall(fr *Frame, st *State, cc *ssa.CallCommon, recvTV TV, args []
 		}
 	}
 	if con != nil && !con.Inline {
+		if callee != nil && callee.Signature.Recv() != nil && len(args) > 0 && v.quiet == 0 {
+			for _, ld := range v.eng.db.Locks {
+				if ld.Owner == typeKey(callee.Signature.Recv().Type()) && acquiresLock(callee, ld.Field, 0) {
+					v.countSection(fr, st, ld, args[0].T)
+				}
+			}
+		}
 		return v.applyContract(fr, st, con, callee, cc, recvTV, args, pos)
 	}
 	// closures and inlinable functions
@@ -1135,4 +1171,73 @@ func token2(op string) token.Token {
 		return token.GEQ
 	}
 	return token.ILLEGAL
+}
+
+// countSection: the top function enters a critical section of lock ld on object owner.
+// Sections entered while a serializing lock of the same object is held are not counted.
+func (v *FV) countSection(fr *Frame, st *State, ld *LockDecl, owner Term) {
+	if v.quiet > 0 || v.top == nil || v.top.Signature.Recv() == nil || len(v.top.Params) == 0 {
+		return
+	}
+	if v.inputs == nil || owner != "in_"+mangle(v.top.Params[0].Name()) {
+		return
+	}
+	for _, other := range v.eng.db.Locks {
+		if other.Owner != ld.Owner {
+			continue
+		}
+		for _, s := range other.Serializes {
+			if s == ld.Field {
+				if _, held := st.held[other.Owner+"."+other.Field+"@"+owner]; held {
+					return
+				}
+			}
+		}
+	}
+	if v.sections == nil {
+		v.sections = map[string]int{}
+	}
+	v.sections[ld.Field]++
+}
+
+// acquiresLock: does fn (or a method it calls on its own receiver) lock receiver.field?
+func acquiresLock(fn *ssa.Function, field string, depth int) bool {
+	if fn == nil || fn.Blocks == nil || depth > 3 || len(fn.Params) == 0 {
+		return false
+	}
+	recv := fn.Params[0]
+	for _, b := range fn.Blocks {
+		for _, in := range b.Instrs {
+			ci, ok := in.(ssa.CallInstruction)
+			if !ok {
+				continue
+			}
+			cc := ci.Common()
+			if cc.IsInvoke() || len(cc.Args) == 0 {
+				continue
+			}
+			callee, ok := cc.Value.(*ssa.Function)
+			if !ok {
+				continue
+			}
+			switch fnKey(callee) {
+			case "sync.Mutex.Lock", "sync.RWMutex.Lock", "sync.RWMutex.RLock":
+				a := cc.Args[0]
+				if u, ok := a.(*ssa.UnOp); ok {
+					a = u.X
+				}
+				if fa, ok := a.(*ssa.FieldAddr); ok && fa.X == recv {
+					st := fa.X.Type().Underlying().(*types.Pointer).Elem().Underlying().(*types.Struct)
+					if st.Field(fa.Field).Name() == field {
+						return true
+					}
+				}
+			default:
+				if cc.Args[0] == recv && callee.Signature.Recv() != nil && acquiresLock(callee, field, depth+1) {
+					return true
+				}
+			}
+		}
+	}
+	return false
 }
